@@ -30,205 +30,214 @@ def run(ctx):
 
     # ------------------------------------------------------------------ C18-agreement
     ctx.rule("C18-agreement", "the completeness test agrees with the reader about which parentheses count")
-    g = fb.call_graph("lib")
-    reach = fb.reachable_from([cbc.name], graph=g)
-    uses_lexer = any(n.startswith("parser::lexer::Lexer::") or n == "<parser::lexer::Lexer as std::iter::Iterator>::next" for n in reach) or \
-        any(callee_matches(t, "parser::lexer::Lexer::from_char_stream") for _, t in cbc.calls())
-    ctx.inst("C18-agreement", "defined-over-tokens", uses_lexer)
-    if uses_lexer:
-        # the counter moves exactly on the list-opening / list-closing token kinds
-        tv = {n: i for i, n in fb.variants("parser::lexer::TokenData")}
-        sw = [x for x in mir.discriminant_switches(cbc, "TokenData")]
-        if not sw:
-            ctx.report("C18-agreement", "token-dispatch", "the token kind is not dispatched on", where_of(cbc))
+    from . import repltables
+    d_agree = repltables.rule_agreement(ctx, "C18-agreement")
+
+    def _old_agreement():
+        g = fb.call_graph("lib")
+        reach = fb.reachable_from([cbc.name], graph=g)
+        uses_lexer = any(n.startswith("parser::lexer::Lexer::") or n == "<parser::lexer::Lexer as std::iter::Iterator>::next" for n in reach) or \
+            any(callee_matches(t, "parser::lexer::Lexer::from_char_stream") for _, t in cbc.calls())
+        ctx.inst("C18-agreement", "defined-over-tokens", uses_lexer)
+        if uses_lexer:
+            # the counter moves exactly on the list-opening / list-closing token kinds
+            tv = {n: i for i, n in fb.variants("parser::lexer::TokenData")}
+            sw = [x for x in mir.discriminant_switches(cbc, "TokenData")]
+            if not sw:
+                ctx.report("C18-agreement", "token-dispatch", "the token kind is not dispatched on", where_of(cbc))
+            else:
+                sb, place, adt, targets, other = sw[0]
+                moves = {}
+                for name, i in tv.items():
+                    tgt = targets.get(i, other)
+                    # straight-line effect on the counter until the loop head
+                    delta = 0
+                    b = tgt
+                    seen = set()
+                    while b not in seen:
+                        seen.add(b)
+                        for s in cbc.blocks[b]["stmts"]:
+                            if s["k"] == "assign" and s["rv"]["k"] == "binop" and s["rv"]["op"] in ("AddWithOverflow", "Add", "SubWithOverflow", "Sub"):
+                                c = mir.const_int(s["rv"]["r"])
+                                if c is not None:
+                                    delta += c if s["rv"]["op"].startswith("Add") else -c
+                        succ = cbc.succs(b)
+                        if len(succ) != 1:
+                            break
+                        b = succ[0]
+                    moves[name] = delta
+                want = {n: 0 for n in tv}
+                want.update({"LeftParen": 1, "VecConsIntro": 1, "ByteVecConsIntro": 1, "RightParen": -1})
+                ctx.inst("C18-agreement", "counter-moves", {k: v for k, v in moves.items() if v})
+                for n in tv:
+                    if moves.get(n) != want[n]:
+                        ctx.report("C18-agreement", "token/" + n, "the completeness counter moves by %s on a %s token, expected %s" % (
+                            moves.get(n), n, want[n]), where_of(cbc))
+            # lexical errors: unterminated string / identifier wait, others submit (no constant verdict)
+            errs = [v for _, _, _, _, v in mir.aggregates(cbc)]
         else:
-            sb, place, adt, targets, other = sw[0]
-            moves = {}
-            for name, i in tv.items():
-                tgt = targets.get(i, other)
-                # straight-line effect on the counter until the loop head
-                delta = 0
-                b = tgt
-                seen = set()
-                while b not in seen:
-                    seen.add(b)
-                    for s in cbc.blocks[b]["stmts"]:
-                        if s["k"] == "assign" and s["rv"]["k"] == "binop" and s["rv"]["op"] in ("AddWithOverflow", "Add", "SubWithOverflow", "Sub"):
-                            c = mir.const_int(s["rv"]["r"])
-                            if c is not None:
-                                delta += c if s["rv"]["op"].startswith("Add") else -c
-                    succ = cbc.succs(b)
-                    if len(succ) != 1:
-                        break
-                    b = succ[0]
-                moves[name] = delta
-            want = {n: 0 for n in tv}
-            want.update({"LeftParen": 1, "VecConsIntro": 1, "ByteVecConsIntro": 1, "RightParen": -1})
-            ctx.inst("C18-agreement", "counter-moves", {k: v for k, v in moves.items() if v})
-            for n in tv:
-                if moves.get(n) != want[n]:
-                    ctx.report("C18-agreement", "token/" + n, "the completeness counter moves by %s on a %s token, expected %s" % (
-                        moves.get(n), n, want[n]), where_of(cbc))
-        # lexical errors: unterminated string / identifier wait, others submit (no constant verdict)
-        errs = [v for _, _, _, _, v in mir.aggregates(cbc)]
-    else:
-        # character scanner: needs a state per lexer context that swallows parentheses
-        consts = set()
-        for b, blk in enumerate(cbc.blocks):
-            t = blk["term"]
-            if t["k"] == "switch" and t.get("dty") == "char":
-                consts |= {v for v, _ in t["targets"]}
-        contexts = {"string": ord('"'), "quoted identifier": ord("|"), "comment": ord(";"), "character literal": ord("\\")}
-        # contexts derived from the lexer: scanners that consume arbitrary characters in a loop
-        lex_ctx = []
-        for name, sc in (("string", "string"), ("quoted identifier", "quoted_identifier"), ("comment", "comment")):
-            f = fb.find("parser::lexer::Lexer::" + sc)
-            if f.loop_blocks() and any(callee_matches(t, "Lexer::advance") for _, t in f.calls()):
-                lex_ctx.append(name)
-        lex_ctx.append("character literal")
-        ctx.inst("C18-agreement", "char-scanner", {"tested_characters": sorted(chr(c) for c in consts if c < 128), "lexer_contexts": lex_ctx})
-        for name in lex_ctx:
-            if contexts[name] not in consts:
-                ctx.report("C18-agreement", "context/" + name.replace(" ", "-"),
-                           "the completeness test counts parentheses character by character but has no state for the %s context of "
-                           "the lexer: a parenthesis inside a %s is counted, so e.g. (display \"(\") is never submitted" % (name, name),
-                           where_of(cbc))
-    # verdict: complete iff the count is not positive
-    rets = []
-    for b, i, s in cbc.stmts():
-        if s["k"] == "assign" and s["place"]["local"] == 0 and s["rv"]["k"] == "binop":
-            rets.append((s["rv"]["op"], mir.const_int(s["rv"]["r"]), mir.const_int(s["rv"]["l"])))
-    ctx.inst("C18-agreement", "verdict", rets)
-    # `count == 0` would never submit a text with a surplus `)`; `count <= 0` submits it and lets the reader report it
-    if not any((op == "Le" and c == 0) or (op == "Lt" and c == 1) or (op == "Ge" and l == 0) or (op == "Gt" and l == 1) for op, c, l in rets):
-        ctx.report("C18-agreement", "verdict", "the completeness verdict is %s, expected `count <= 0`" % rets, where_of(cbc))
+            # character scanner: needs a state per lexer context that swallows parentheses
+            consts = set()
+            for b, blk in enumerate(cbc.blocks):
+                t = blk["term"]
+                if t["k"] == "switch" and t.get("dty") == "char":
+                    consts |= {v for v, _ in t["targets"]}
+            contexts = {"string": ord('"'), "quoted identifier": ord("|"), "comment": ord(";"), "character literal": ord("\\")}
+            # contexts derived from the lexer: scanners that consume arbitrary characters in a loop
+            lex_ctx = []
+            for name, sc in (("string", "string"), ("quoted identifier", "quoted_identifier"), ("comment", "comment")):
+                f = fb.find("parser::lexer::Lexer::" + sc)
+                if f.loop_blocks() and any(callee_matches(t, "Lexer::advance") for _, t in f.calls()):
+                    lex_ctx.append(name)
+            lex_ctx.append("character literal")
+            ctx.inst("C18-agreement", "char-scanner", {"tested_characters": sorted(chr(c) for c in consts if c < 128), "lexer_contexts": lex_ctx})
+            for name in lex_ctx:
+                if contexts[name] not in consts:
+                    ctx.report("C18-agreement", "context/" + name.replace(" ", "-"),
+                               "the completeness test counts parentheses character by character but has no state for the %s context of "
+                               "the lexer: a parenthesis inside a %s is counted, so e.g. (display \"(\") is never submitted" % (name, name),
+                               where_of(cbc))
+        # verdict: complete iff the count is not positive
+        rets = []
+        for b, i, s in cbc.stmts():
+            if s["k"] == "assign" and s["place"]["local"] == 0 and s["rv"]["k"] == "binop":
+                rets.append((s["rv"]["op"], mir.const_int(s["rv"]["r"]), mir.const_int(s["rv"]["l"])))
+        ctx.inst("C18-agreement", "verdict", rets)
+        # `count == 0` would never submit a text with a surplus `)`; `count <= 0` submits it and lets the reader report it
+        if not any((op == "Le" and c == 0) or (op == "Lt" and c == 1) or (op == "Ge" and l == 0) or (op == "Gt" and l == 1) for op, c, l in rets):
+            ctx.report("C18-agreement", "verdict", "the completeness verdict is %s, expected `count <= 0`" % rets, where_of(cbc))
+
+    ctx.guarded("C18-agreement", d_agree >= 30, _old_agreement)
 
     # ------------------------------------------------------------------ C18-buffer
     ctx.rule("C18-buffer", "lines accumulate until complete; the buffer is cleared after every evaluation")
-    p = Prov(rwi)
-    loops = rwi.loops()
-    if not loops:
-        ctx.report("C18-buffer", "loop", "run_with_interpreter has no loop", where_of(rwi))
-        return EXPLANATION, NOT_DECIDED
-    head, body = max(loops, key=lambda hb: len(hb[1]))
-    chk = [(b, t) for b, t in rwi.calls() if callee(t) == cbc.name]
-    evs = [(b, t) for b, t in rwi.calls() if callee_matches(t, "interpreter::interpreter::Interpreter::eval")]
-    if len(chk) != 1 or len(evs) != 1:
-        ctx.report("C18-buffer", "shape", "expected one completeness test and one eval in the loop (found %d, %d)" % (len(chk), len(evs)), where_of(rwi))
-        return EXPLANATION, NOT_DECIDED
-    cb, ct = chk[0]
-    eb, et = evs[0]
-    nb = rwi.blocks[ct["target"]]["term"]
-    true_t = nb["otherwise"] if nb["k"] == "switch" else None
-    false_t = dict((v, bb) for v, bb in nb["targets"]).get(0) if nb["k"] == "switch" else None
-    # the buffer local: receiver of push_str fed by the line
-    pushes = [(b, t) for b, t in rwi.calls() if callee_matches(t, "String::push_str")]
-    buf = mir.trace_access(rwi, pushes[0][1]["args"][0])[0] if pushes else None
-    def is_buf(o):
-        return buf is not None and mir.trace_access(rwi, o)[0] == buf
-    dom = rwi.dominators()
-    ok_complete = true_t is not None and true_t in dom[eb] and eb not in rwi.reachable(false_t) - {x for x in rwi.reachable(head)} if false_t is not None else False
-    # evaluation only on the complete edge
-    eval_on_incomplete = false_t is not None and mir.paths_avoiding(rwi, false_t, [eb], [head]) is not None
-    ctx.inst("C18-buffer", "eval-gated", {"eval_dominated_by_complete_edge": true_t in dom[eb] if true_t is not None else False,
-                                          "eval_reachable_from_incomplete_edge": eval_on_incomplete})
-    if true_t is None or true_t not in dom[eb] or eval_on_incomplete:
-        ctx.report("C18-buffer", "eval-gated", "the buffer is evaluated although the completeness test did not succeed", where_of(rwi, et))
-    # both the test and eval read the accumulated buffer
-    for lab, t in (("test", ct), ("eval", et)):
-        arg = t["args"][-1]
-        tl = p.taint_reach(mir.op_local(arg))
-        if buf not in tl:
-            ctx.report("C18-buffer", lab + "-input", "the %s is not fed from the accumulated buffer" % lab, where_of(rwi, t))
-    # clear after eval on both outcomes: every path from eval back to the loop head passes String::clear(buffer)
-    clears = [b for b, t in rwi.calls() if callee_matches(t, "String::clear") and is_buf(t["args"][0])]
-    wit = mir.paths_avoiding(rwi, et["target"], [head], clears)
-    ctx.inst("C18-buffer", "clear-after-eval", {"clear_blocks": clears, "path_without_clear": wit})
-    if wit is not None:
-        ctx.report("C18-buffer", "not-cleared", "after an evaluation the loop can continue without clearing the buffer (blocks %s): "
-                   "the next submission would contain the previous text" % wit, where_of(rwi, et))
-    # incomplete edge: a newline is appended, nothing is cleared
-    if false_t is not None:
-        reg = {b for b in rwi.reachable(false_t) if b in body} - rwi.reachable(true_t) if true_t is not None else set()
-        path = mir.paths_avoiding(rwi, false_t, [head], [])
-        pushes_nl = [t for b, t in rwi.calls(path or []) if callee_matches(t, "String::push") and is_buf(t["args"][0]) and mir.const_val(t["args"][1]) == "\n"]
-        cleared = [b for b in (path or []) if b in clears]
-        ctx.inst("C18-buffer", "incomplete-edge", {"appends_newline": bool(pushes_nl), "clears": bool(cleared)})
-        if not pushes_nl or cleared:
-            ctx.report("C18-buffer", "incomplete-edge", "an incomplete line must append a newline and keep the buffer", where_of(rwi))
-    # the line read is appended before the test
-    if not pushes or pushes[0][0] not in dom[cb]:
-        ctx.report("C18-buffer", "append", "the line read is not appended to the buffer before the completeness test", where_of(rwi))
-    # interrupt clears
-    rl = fb.adts.get("rustyline::error::ReadlineError")
-    interrupted_clears = False
-    for sb, place, adt, targets, other in mir.discriminant_switches(rwi):
-        if adt.endswith("ReadlineError"):
-            for v, tgt in targets.items():
-                reg = mir.dominated_region(rwi, tgt)
-                if any(b in clears for b in reg) and head in rwi.reachable(tgt):
-                    interrupted_clears = True
-    ctx.inst("C18-buffer", "interrupt-clears", interrupted_clears)
-    if not interrupted_clears:
-        ctx.report("C18-buffer", "interrupt", "no read-error arm clears the buffer and continues (Ctrl-C would keep a partial form)", where_of(rwi))
+    ctx.rule("C18-print", "definitions and unspecified values print nothing; values go to stdout, errors to stderr; the loop continues")
+    ctx.rule("C18-one-interpreter", "the session keeps its definitions: one interpreter for the whole loop")
+    d_sess = repltables.rule_session(ctx, "C18-buffer", "C18-print", "C18-one-interpreter")
+
+    def _old_buffer():
+        p = Prov(rwi)
+        loops = rwi.loops()
+        if not loops:
+            ctx.report("C18-buffer", "loop", "run_with_interpreter has no loop", where_of(rwi))
+            return EXPLANATION, NOT_DECIDED
+        head, body = max(loops, key=lambda hb: len(hb[1]))
+        chk = [(b, t) for b, t in rwi.calls() if callee(t) == cbc.name]
+        evs = [(b, t) for b, t in rwi.calls() if callee_matches(t, "interpreter::interpreter::Interpreter::eval")]
+        if len(chk) != 1 or len(evs) != 1:
+            ctx.report("C18-buffer", "shape", "expected one completeness test and one eval in the loop (found %d, %d)" % (len(chk), len(evs)), where_of(rwi))
+            return EXPLANATION, NOT_DECIDED
+        cb, ct = chk[0]
+        eb, et = evs[0]
+        nb = rwi.blocks[ct["target"]]["term"]
+        true_t = nb["otherwise"] if nb["k"] == "switch" else None
+        false_t = dict((v, bb) for v, bb in nb["targets"]).get(0) if nb["k"] == "switch" else None
+        # the buffer local: receiver of push_str fed by the line
+        pushes = [(b, t) for b, t in rwi.calls() if callee_matches(t, "String::push_str")]
+        buf = mir.trace_access(rwi, pushes[0][1]["args"][0])[0] if pushes else None
+        def is_buf(o):
+            return buf is not None and mir.trace_access(rwi, o)[0] == buf
+        dom = rwi.dominators()
+        ok_complete = true_t is not None and true_t in dom[eb] and eb not in rwi.reachable(false_t) - {x for x in rwi.reachable(head)} if false_t is not None else False
+        # evaluation only on the complete edge
+        eval_on_incomplete = false_t is not None and mir.paths_avoiding(rwi, false_t, [eb], [head]) is not None
+        ctx.inst("C18-buffer", "eval-gated", {"eval_dominated_by_complete_edge": true_t in dom[eb] if true_t is not None else False,
+                                              "eval_reachable_from_incomplete_edge": eval_on_incomplete})
+        if true_t is None or true_t not in dom[eb] or eval_on_incomplete:
+            ctx.report("C18-buffer", "eval-gated", "the buffer is evaluated although the completeness test did not succeed", where_of(rwi, et))
+        # both the test and eval read the accumulated buffer
+        for lab, t in (("test", ct), ("eval", et)):
+            arg = t["args"][-1]
+            tl = p.taint_reach(mir.op_local(arg))
+            if buf not in tl:
+                ctx.report("C18-buffer", lab + "-input", "the %s is not fed from the accumulated buffer" % lab, where_of(rwi, t))
+        # clear after eval on both outcomes: every path from eval back to the loop head passes String::clear(buffer)
+        clears = [b for b, t in rwi.calls() if callee_matches(t, "String::clear") and is_buf(t["args"][0])]
+        wit = mir.paths_avoiding(rwi, et["target"], [head], clears)
+        ctx.inst("C18-buffer", "clear-after-eval", {"clear_blocks": clears, "path_without_clear": wit})
+        if wit is not None:
+            ctx.report("C18-buffer", "not-cleared", "after an evaluation the loop can continue without clearing the buffer (blocks %s): "
+                       "the next submission would contain the previous text" % wit, where_of(rwi, et))
+        # incomplete edge: a newline is appended, nothing is cleared
+        if false_t is not None:
+            reg = {b for b in rwi.reachable(false_t) if b in body} - rwi.reachable(true_t) if true_t is not None else set()
+            path = mir.paths_avoiding(rwi, false_t, [head], [])
+            pushes_nl = [t for b, t in rwi.calls(path or []) if callee_matches(t, "String::push") and is_buf(t["args"][0]) and mir.const_val(t["args"][1]) == "\n"]
+            cleared = [b for b in (path or []) if b in clears]
+            ctx.inst("C18-buffer", "incomplete-edge", {"appends_newline": bool(pushes_nl), "clears": bool(cleared)})
+            if not pushes_nl or cleared:
+                ctx.report("C18-buffer", "incomplete-edge", "an incomplete line must append a newline and keep the buffer", where_of(rwi))
+        # the line read is appended before the test
+        if not pushes or pushes[0][0] not in dom[cb]:
+            ctx.report("C18-buffer", "append", "the line read is not appended to the buffer before the completeness test", where_of(rwi))
+        # interrupt clears
+        rl = fb.adts.get("rustyline::error::ReadlineError")
+        interrupted_clears = False
+        for sb, place, adt, targets, other in mir.discriminant_switches(rwi):
+            if adt.endswith("ReadlineError"):
+                for v, tgt in targets.items():
+                    reg = mir.dominated_region(rwi, tgt)
+                    if any(b in clears for b in reg) and head in rwi.reachable(tgt):
+                        interrupted_clears = True
+        ctx.inst("C18-buffer", "interrupt-clears", interrupted_clears)
+        if not interrupted_clears:
+            ctx.report("C18-buffer", "interrupt", "no read-error arm clears the buffer and continues (Ctrl-C would keep a partial form)", where_of(rwi))
+
+    ctx.guarded("C18-buffer", d_sess >= 1, _old_buffer)
 
     # ------------------------------------------------------------------ C18-print
     ctx.rule("C18-print", "definitions and unspecified values print nothing; values go to stdout, errors to stderr; the loop continues")
-    esw = mir.result_switch_after(rwi, eb)
-    if not esw:
-        ctx.report("C18-print", "match", "the result of eval is not matched", where_of(rwi, et))
-    else:
-        ok_t, err_t = esw[1].get(0, esw[2]), esw[1].get(1, esw[2])
-        ok_reg, err_reg = mir.dominated_region(rwi, ok_t), mir.dominated_region(rwi, err_t)
-        e_prints = [callee(t) for _, t in rwi.calls(err_reg) if callee_matches(t, "std::io::_eprint", "std::io::_print")]
-        ctx.inst("C18-print", "error-arm", e_prints)
-        if e_prints != ["std::io::_eprint"]:
-            ctx.report("C18-print", "error-arm", "an evaluation error is reported through %s, expected one eprint" % e_prints, where_of(rwi))
-        if head not in rwi.reachable(err_t):
-            ctx.report("C18-print", "error-continues", "after an error the session does not continue", where_of(rwi))
-        # the error printed is the Err payload
-        for b, t in rwi.calls(err_reg):
-            if callee_matches(t, "std::io::_eprint"):
-                fc = [x for x in mir.format_calls(rwi, err_reg)]
-                if not fc or not fc[0][4] or "Err" not in mir.trace_access(rwi, fc[0][4][0])[1]:
-                    ctx.report("C18-print", "error-payload", "the message printed is not the evaluation error", where_of(rwi, t))
-        # Ok arm: Option discriminant: None -> no print; Some(Void) -> no print; Some(other) -> one println of the value
-        osw = [x for x in mir.discriminant_switches(rwi) if x[0] in ok_reg]
-        vidx = fb.variant_index("values::Value", "Void")
-        prints_by = {}
-        none_prints = void_prints = value_prints = None
-        for sb, place, adt, targets, other in osw:
-            if adt.endswith("option::Option"):
-                none_t = targets.get(0, other)
-                none_prints = [callee(t) for _, t in rwi.calls(mir.dominated_region(rwi, none_t)) if callee_matches(t, "std::io::_print", "std::io::_eprint")]
-            if adt.endswith("values::Value"):
-                vt = targets.get(vidx)
-                ot = other
-                if vt is not None:
-                    void_prints = [callee(t) for _, t in rwi.calls(mir.dominated_region(rwi, vt)) if callee_matches(t, "std::io::_print", "std::io::_eprint")]
-                    value_prints = [callee(t) for _, t in rwi.calls(mir.dominated_region(rwi, ot)) if callee_matches(t, "std::io::_print", "std::io::_eprint")]
-        ctx.inst("C18-print", "ok-arm", {"none": none_prints, "void": void_prints, "value": value_prints})
-        if none_prints != [] or void_prints != [] or value_prints != ["std::io::_print"]:
-            ctx.report("C18-print", "ok-arm", "printing of results is none=%s void=%s value=%s; expected nothing, nothing, one println" % (
-                none_prints, void_prints, value_prints), where_of(rwi))
+
+    def _old_print():
+        esw = mir.result_switch_after(rwi, eb)
+        if not esw:
+            ctx.report("C18-print", "match", "the result of eval is not matched", where_of(rwi, et))
         else:
-            fcs = [x for x in mir.format_calls(rwi, ok_reg) if x[2] is not None]
-            good = any([p_ for p_ in x[2] if isinstance(p_, str)] == ["\n"] and x[3] == ["display"] for x in fcs)
-            if not good:
-                ctx.report("C18-print", "value-format", "the value is not printed with Display followed by a newline", where_of(rwi))
-        if head not in rwi.reachable(ok_t):
-            ctx.report("C18-print", "ok-continues", "after a result the session does not continue", where_of(rwi))
+            ok_t, err_t = esw[1].get(0, esw[2]), esw[1].get(1, esw[2])
+            ok_reg, err_reg = mir.dominated_region(rwi, ok_t), mir.dominated_region(rwi, err_t)
+            e_prints = [callee(t) for _, t in rwi.calls(err_reg) if callee_matches(t, "std::io::_eprint", "std::io::_print")]
+            ctx.inst("C18-print", "error-arm", e_prints)
+            if e_prints != ["std::io::_eprint"]:
+                ctx.report("C18-print", "error-arm", "an evaluation error is reported through %s, expected one eprint" % e_prints, where_of(rwi))
+            if head not in rwi.reachable(err_t):
+                ctx.report("C18-print", "error-continues", "after an error the session does not continue", where_of(rwi))
+            # the error printed is the Err payload
+            for b, t in rwi.calls(err_reg):
+                if callee_matches(t, "std::io::_eprint"):
+                    fc = [x for x in mir.format_calls(rwi, err_reg)]
+                    if not fc or not fc[0][4] or "Err" not in mir.trace_access(rwi, fc[0][4][0])[1]:
+                        ctx.report("C18-print", "error-payload", "the message printed is not the evaluation error", where_of(rwi, t))
+            # Ok arm: Option discriminant: None -> no print; Some(Void) -> no print; Some(other) -> one println of the value
+            osw = [x for x in mir.discriminant_switches(rwi) if x[0] in ok_reg]
+            vidx = fb.variant_index("values::Value", "Void")
+            prints_by = {}
+            none_prints = void_prints = value_prints = None
+            for sb, place, adt, targets, other in osw:
+                if adt.endswith("option::Option"):
+                    none_t = targets.get(0, other)
+                    none_prints = [callee(t) for _, t in rwi.calls(mir.dominated_region(rwi, none_t)) if callee_matches(t, "std::io::_print", "std::io::_eprint")]
+                if adt.endswith("values::Value"):
+                    vt = targets.get(vidx)
+                    ot = other
+                    if vt is not None:
+                        void_prints = [callee(t) for _, t in rwi.calls(mir.dominated_region(rwi, vt)) if callee_matches(t, "std::io::_print", "std::io::_eprint")]
+                        value_prints = [callee(t) for _, t in rwi.calls(mir.dominated_region(rwi, ot)) if callee_matches(t, "std::io::_print", "std::io::_eprint")]
+            ctx.inst("C18-print", "ok-arm", {"none": none_prints, "void": void_prints, "value": value_prints})
+            if none_prints != [] or void_prints != [] or value_prints != ["std::io::_print"]:
+                ctx.report("C18-print", "ok-arm", "printing of results is none=%s void=%s value=%s; expected nothing, nothing, one println" % (
+                    none_prints, void_prints, value_prints), where_of(rwi))
+            else:
+                fcs = [x for x in mir.format_calls(rwi, ok_reg) if x[2] is not None]
+                good = any([p_ for p_ in x[2] if isinstance(p_, str)] == ["\n"] and x[3] == ["display"] for x in fcs)
+                if not good:
+                    ctx.report("C18-print", "value-format", "the value is not printed with Display followed by a newline", where_of(rwi))
+            if head not in rwi.reachable(ok_t):
+                ctx.report("C18-print", "ok-continues", "after a result the session does not continue", where_of(rwi))
+
+    ctx.guarded("C18-print", d_sess >= 1, _old_print)
 
     # ------------------------------------------------------------------ C18-one-interpreter
     ctx.rule("C18-one-interpreter", "the session keeps its definitions: one interpreter for the whole loop")
-    ctor = [(b, t) for f in (rwi,) for b, t in f.calls() if callee_matches(
-        t, "Interpreter::new_with_stdlib", "Interpreter as std::default::Default>::default", "Interpreter::with_environment")]
-    in_loop = [b for b, _ in ctor if b in body]
-    it_arg = p.arg_roots(et["args"][0])
-    ctx.inst("C18-one-interpreter", "eval-receiver", {"from_params": sorted(it_arg), "constructors_in_loop": len(in_loop)})
-    if in_loop or it_arg != {1}:
-        ctx.report("C18-one-interpreter", "receiver", "eval is not applied to the one interpreter given to the session (params %s, "
-                   "constructors in loop %d)" % (sorted(it_arg), len(in_loop)), where_of(rwi, et))
     run = fb.find("repl::run")
     cs = [callee(t) for _, t in run.calls()]
     if "interpreter::interpreter::Interpreter::new_with_stdlib" not in cs or rwi.name not in cs:
